@@ -138,8 +138,9 @@ class Run:
                "-config", cfg]
         if coverage:
             cmd += ["-coverage", "1"]
+        cmd += ["-seed", str(self.seed)]
         if simulate:
-            cmd += ["-simulate", "num=%d" % simulate, "-seed", str(self.seed)]
+            cmd += ["-simulate", "num=%d" % simulate]
         if depth:
             cmd += ["-depth", str(depth)]
         cmd.append(module + ".tla")
@@ -396,7 +397,7 @@ class Run:
             rc = rc or 2
         if not self.cov["samples"]:
             self.cov["samples"] = [{"note": "no passing sample recorded"}]
-        if not self.replay:
+        if not self.replay and not os.environ.get("VERIF_NO_EVIDENCE"):
             with open(os.path.join(VERIF, "evidence", self.prop + ".json"), "w") as fh:
                 json.dump(ev, fh, indent=1, default=str)
         print("RESULT property=%s tier=%s seed=%d states=%d transitions=%d evaluations=%d classes=%d traces=%d violations=%d known=%d inconclusive=%d wall=%.1fs exit=%d" % (
